@@ -10,6 +10,8 @@ from checks import ingest_common as ic
 
 def run(ck):
     ck.trusted += [
+        "C01: the Go memory model as far as the promise needs it (sequentially consistent sync/atomic operations; a receive from a closed channel is ordered after the close; "
+        "plain reads see ANY write they are not ordered after -- modelled as seeing the current value of the field in an interleaving of the micro-operations of model/PromiseHB.v)",
         "C01: Go mutex semantics (a Lock/Unlock region is atomic with respect to the other regions of the same mutex); WHICH regions exist and what they touch is "
         "regenerated from the source and compared with model/IngestRegions.v on every run; "
         "timers, the 1 s sleep after a refused connection and the watchdog are modelled as nondeterministic steps (SPlan, SDial, SPingFail)",
@@ -18,6 +20,7 @@ def run(ck):
     ]
     ck.coq_props()
     ic.run_regions(ck, "C01")
+    ic.run_promise(ck, "C01")
     res = ic.run_level1(ck, "C01")
     if res is None:
         return
